@@ -10,14 +10,14 @@ TARGET = dict(
                  "ts_encaps preconditions as guaranteed by upipe_ts_mux: octetrate, tb_rate >= octetrate, PID, PES id, cr_sys on every uref, cr_prog when a PCR interval is set",
                  "ASan + exact-size packet areas"],
     execs=[
-        dict(name="roundtrip", harness="harness/C15_roundtrip.c", share=1.0,
+        dict(name="roundtrip", harness="harness/C15_roundtrip.c", share=1.0, case_scale=0.5,
              repo=LIBUPIPE + _TS("upipe_ts_encaps.c", "upipe_ts_decaps.c", "upipe_ts_pes_encaps.c", "upipe_ts_pes_decaps.c"), engine=MEMFIX),
-        dict(name="decaps", harness="harness/C15_decaps.c", share=1.0,
+        dict(name="decaps", harness="harness/C15_decaps.c", share=1.0, case_scale=0.75,
              repo=LIBUPIPE + _TS("upipe_ts_decaps.c", "upipe_ts_pes_decaps.c", "upipe_ts_split.c", "upipe_ts_pid_filter.c"), engine=MEMFIX),
         dict(name="corrupt", harness="harness/C15_corrupt.c", share=1.0,
              repo=LIBUPIPE + _TS("upipe_ts_decaps.c", "upipe_ts_pes_decaps.c", "upipe_ts_split.c", "upipe_ts_pid_filter.c"), engine=MEMFIX),
     ],
-    quick=dict(cases=4000, budget=13), thorough=dict(cases=120000, budget=170),
+    quick=dict(cases=8000, budget=12), thorough=dict(cases=60000, budget=150),
 )
 META = dict(
     technique="property-based round-trip and differential testing against an independent bit-level TS/PES reference (rapidcheck tapes -> C executors) under ASan",
